@@ -54,7 +54,9 @@ func (p *Pool[T]) Get(size int) (T, int) {
 
 // Put takes x and its size for future reuse.
 func (p *Pool[T]) Put(x T, size int) {
-	if size < p.stepSize {
+	// only a size that is exactly a size class can be reused: Get hands out any object of
+	// the shard for every request up to the class size
+	if size < p.stepSize || p.size(size) != size {
 		return
 	}
 
